@@ -233,60 +233,18 @@ def optPart : Option Str → PartVal
   | none => .none
   | some s => .str s
 
-/-- **the code's reading** of a `required_parts` entry (`if value is None` for `True`; `elif
-    required:` skips an empty collection) — differs from the docstring's `requiredHolds` exactly on
-    the classes of KF-C15-c and KF-C15-d (`requiredHolds_eq_code`, `required_true_on_empty_differs`,
-    `required_empty_collection_differs`) -/
-def requiredHoldsCode (rule : Option PartRule) (part : PartVal) : Bool :=
-  match rule, part with
-  | some .always, .str _ => true
-  | some .always, _ => false
-  | some (.oneOf []), _ => true
-  | some (.oneOf l), .str s => l.contains s
-  | some (.oneOf _), _ => false
-  | _, _ => true
-
-theorem requiredHolds_eq_code (r : Option PartRule) (v : PartVal) (hv : v ≠ .raises)
-    (hc : requiredTrueOnEmpty r v = false) (hd : requiredEmptyCollection r v = false) :
-    requiredHolds r v = requiredHoldsCode r v := by
+theorem reqFails_eq (r : Option PartRule) (v : Option Str) :
+    reqFails r v = !requiredHolds r (optPart v) := by
   cases r with
   | none => cases v <;> rfl
   | some r =>
     cases r with
-    | off => cases v <;> rfl
     | always =>
       cases v with
-      | raises => exact absurd rfl hv
       | none => rfl
-      | str s =>
-        cases s with
-        | nil => simp [requiredTrueOnEmpty] at hc
-        | cons a t => simp [requiredHolds, requiredHoldsCode, partPresent]
-    | oneOf l =>
-      cases l with
-      | nil => cases v <;> simp_all [requiredEmptyCollection]
-      | cons a t => cases v <;> rfl
-
-/-- on the two classes the readings differ: the docstring says "not met", the code "met" -/
-theorem required_true_on_empty_differs :
-    requiredHolds (some .always) (.str []) = false ∧ requiredHoldsCode (some .always) (.str []) = true := by
-  decide
-theorem required_empty_collection_differs (v : PartVal) :
-    requiredHolds (some (.oneOf [])) v = false ∧ requiredHoldsCode (some (.oneOf [])) v = true := by
-  cases v <;> simp [requiredHolds, requiredHoldsCode]
-
-theorem reqFails_eq (r : Option PartRule) (v : Option Str) :
-    reqFails r v = !requiredHoldsCode r (optPart v) := by
-  cases r with
-  | none => cases v <;> rfl
-  | some r =>
-    cases r with
-    | always => cases v <;> rfl
+      | some s => cases s <;> simp [reqFails, requiredHolds, optPart, partPresent]
     | off => cases v <;> rfl
-    | oneOf l =>
-      cases l with
-      | nil => cases v <;> rfl
-      | cons a t => cases v <;> simp [reqFails, requiredHoldsCode, optPart]
+    | oneOf l => cases v <;> simp [reqFails, requiredHolds, optPart]
 
 theorem forbFails_eq (r : Option PartRule) (v : Option Str) :
     forbFails r v = !forbiddenHolds r (optPart v) := by
@@ -304,7 +262,7 @@ theorem forbFails_eq (r : Option PartRule) (v : Option Str) :
       | nil => cases v <;> simp [forbFails, forbiddenHolds, optPart]
       | cons a t => cases v <;> simp [forbFails, forbiddenHolds, optPart]
 
-/-- the message one part of the URL earns (the CODE's reading of required entries): unreadable → `bad_format`;
+/-- the message one part of the URL earns, by the documentation: unreadable → `bad_format`;
     its `required_parts` entry not met → `required_part`; its `forbidden_parts` entry violated →
     `forbidden_part` -/
 def partKey (req forb : List (Str × PartRule)) (table : List (Str × PartVal)) (k : Str) :
@@ -312,16 +270,16 @@ def partKey (req forb : List (Str × PartRule)) (table : List (Str × PartVal)) 
   match table.lookup k with
   | some .raises => some "bad_format"
   | some v =>
-    if !requiredHoldsCode (req.lookup k) v then some "required_part"
+    if !requiredHolds (req.lookup k) v then some "required_part"
     else if !forbiddenHolds (forb.lookup k) v then some "forbidden_part"
     else none
   | none => none
 
-/-- is the part fine, in the code's reading? -/
+/-- is the part fine (the conjunct of `httpPartsDocumented`)? -/
 def partOk (req forb : List (Str × PartRule)) (table : List (Str × PartVal)) (k : Str) : Bool :=
   match table.lookup k with
   | some .raises => false
-  | some v => requiredHoldsCode (req.lookup k) v && forbiddenHolds (forb.lookup k) v
+  | some v => requiredHolds (req.lookup k) v && forbiddenHolds (forb.lookup k) v
   | none => true
 
 theorem partKey_none_iff (req forb table k) :
@@ -334,10 +292,10 @@ theorem partKey_none_iff (req forb table k) :
     | raises => simp
     | none =>
       dsimp only
-      cases requiredHoldsCode (req.lookup k) .none <;> cases forbiddenHolds (forb.lookup k) .none <;> simp
+      cases requiredHolds (req.lookup k) .none <;> cases forbiddenHolds (forb.lookup k) .none <;> simp
     | str s =>
       dsimp only
-      cases requiredHoldsCode (req.lookup k) (.str s) <;> cases forbiddenHolds (forb.lookup k) (.str s) <;> simp
+      cases requiredHolds (req.lookup k) (.str s) <;> cases forbiddenHolds (forb.lookup k) (.str s) <;> simp
 
 /-- **the loop, order-free**: over known part names the loop returns True iff no part earns a
     message, and otherwise notes the message of the first part (in `all_parts` order) that earns
@@ -373,12 +331,12 @@ theorem httpPartsLoop_eq (req forb : List (Str × PartRule)) (p : Parsed) (parts
       | none =>
         simp only [asPart, optPart] at e1 e2 ⊢
         rw [e1, e2]
-        cases requiredHoldsCode (req.lookup k) .none <;> cases forbiddenHolds (forb.lookup k) .none <;>
+        cases requiredHolds (req.lookup k) .none <;> cases forbiddenHolds (forb.lookup k) .none <;>
           simp [ih']
       | some s =>
         simp only [asPart, optPart] at e1 e2 ⊢
         rw [e1, e2]
-        cases requiredHoldsCode (req.lookup k) (.str s) <;>
+        cases requiredHolds (req.lookup k) (.str s) <;>
           cases forbiddenHolds (forb.lookup k) (.str s) <;> simp [ih']
 
 theorem findSome_none_iff_all (req forb table) (parts : List Str) :
@@ -394,38 +352,9 @@ theorem findSome_none_iff_all (req forb table) (parts : List Str) :
         rw [(partKey_none_iff req forb table k).2 hc] at hk; cases hk
       simp [this]
 
-/-- is the part fine, by the docstring (the conjunct of `httpPartsDocumented`)? -/
-def partOkDoc (req forb : List (Str × PartRule)) (table : List (Str × PartVal)) (k : Str) : Bool :=
-  match table.lookup k with
-  | some .raises => false
-  | some v => requiredHolds (req.lookup k) v && forbiddenHolds (forb.lookup k) v
-  | none => true
-
-theorem partOkDoc_eq_code (req forb table) (parts : List Str)
-    (hq : httpQuirk parts req table = false) :
-    parts.all (partOkDoc req forb table) = parts.all (partOk req forb table) := by
-  induction parts with
-  | nil => rfl
-  | cons k rest ih =>
-    simp only [httpQuirk, List.any_cons, Bool.or_eq_false_iff] at hq
-    simp only [List.all_cons]
-    rw [ih (by simpa [httpQuirk] using hq.2)]
-    congr 1
-    unfold partOkDoc partOk
-    cases hl : table.lookup k with
-    | none => rfl
-    | some v =>
-      have h1 := hq.1
-      rw [hl] at h1
-      simp only [Bool.or_eq_false_iff] at h1
-      cases v with
-      | raises => rfl
-      | none => simp only; rw [requiredHolds_eq_code _ _ (by simp) h1.1 h1.2]
-      | str s => simp only; rw [requiredHolds_eq_code _ _ (by simp) h1.1 h1.2]
-
 theorem httpPartsDocumented_eq (allParts req forb table d)
     (hd : httpPartsDocumented allParts req forb table = some d) :
-    (∀ k ∈ allParts, k ∈ httpVocabulary) ∧ d = allParts.all (partOkDoc req forb table) := by
+    (∀ k ∈ allParts, k ∈ httpVocabulary) ∧ d = allParts.all (partOk req forb table) := by
   unfold httpPartsDocumented at hd
   split at hd
   · cases hd
@@ -436,12 +365,12 @@ theorem httpPartsDocumented_eq (allParts req forb table d)
     rw [← hd]
     rfl
 
-/-- the class of the open findings (KF-C15-a, -c, -d for this validator; `Spec.excluded`) -/
+/-- the class of the open findings (for this validator: KF-C15-a; `Spec.excluded`) -/
 abbrev Excluded := excluded
 
-/-- **HTTPURLValidator decides its docstring's predicate** — outside `excluded`: not (no value ∧
-    promised False: KF-C15-a), and no known part of the URL in the class of KF-C15-c (`True` entry
-    of `required_parts`, the part is the empty text) or KF-C15-d (empty collection as entry) -/
+/-- **HTTPURLValidator decides its docstring's predicate** — outside `excluded`, which for this
+    validator is only KF-C15-a (no value ∧ promised False); KF-C15-c / -d are repaired: the code's
+    reading of `required_parts` IS the docstring's (`reqFails_eq`) -/
 theorem decides_httpURL_partial (ap : List Str) (req forb : List (Str × PartRule)) (e : View)
     (d : Bool) (hd : documented (.httpURL ap req forb) e = some d)
     (hk : Excluded (.httpURL ap req forb) e d = false) : Decides (.httpURL ap req forb) e d := by
@@ -469,9 +398,7 @@ theorem decides_httpURL_partial (ap : List Str) (req forb : List (Str × PartRul
     | ok p =>
       rw [hp] at hd hval
       simp only at hd hval
-      simp only [Excluded, excluded, hv, hp] at hk
       obtain ⟨hvoc, hdd⟩ := httpPartsDocumented_eq _ _ _ _ _ hd
-      rw [partOkDoc_eq_code req forb (partTable p) ap hk] at hdd
       rw [httpPartsLoop_eq req forb p ap hvoc] at hval
       cases hf : ap.findSome? (partKey req forb (partTable p)) with
       | none =>
@@ -542,38 +469,62 @@ theorem C15_HttpFull_fails : ¬ C15_HttpFull := by
   rw [hv] at this
   simp [Except.toOption] at this
 
-/-- **KF-C15-c, witness**: `HTTPURLValidator(required_parts={'path': True})` on `'http://h'` — the
-    URL has no path, the docstring says "the part is required"; the validator says True.  (The six
-    tuple parts of a parse result are `''`, never None, and the code tests `value is None`: on them a
-    `True` entry can never fail.) -/
-theorem C15_required_true_never_fails :
+/-- the `required` half as it was BEFORE the repair of KF-C15-c / -d (`if value is None` for
+    `True`; `elif required:` skips an empty collection) — a counter-model -/
+def oldReqFails (required : Option PartRule) (value : Option Str) : Bool :=
+  match required with
+  | some .always => value.isNone
+  | some (.oneOf l) => !l.isEmpty && !(match value with | some s => l.contains s | none => false)
+  | some .off => false
+  | none => false
+
+/-- **the old code did not decide the docstring's reading** (KF-C15-c: `True` on a part that is the
+    empty text — the six tuple parts are `''`, never None; KF-C15-d: an empty collection), and these
+    are the only two places where it differed from the repaired code -/
+theorem oldRequired_fails :
+    oldReqFails (some .always) (some []) = false ∧ requiredHolds (some .always) (.str []) = false ∧
+    (∀ v, oldReqFails (some (.oneOf [])) v = false ∧ requiredHolds (some (.oneOf [])) (optPart v) = false) ∧
+    (∀ r v, ¬ (r = some .always ∧ v = some []) → r ≠ some (.oneOf []) → oldReqFails r v = reqFails r v) := by
+  refine ⟨rfl, rfl, fun v => by cases v <;> exact ⟨rfl, rfl⟩, ?_⟩
+  intro r v h1 h2
+  cases r with
+  | none => rfl
+  | some r =>
+    cases r with
+    | off => rfl
+    | always =>
+      cases v with
+      | none => rfl
+      | some s =>
+        cases s with
+        | nil => exact absurd ⟨rfl, rfl⟩ h1
+        | cons a t => rfl
+    | oneOf l =>
+      cases l with
+      | nil => exact absurd rfl h2
+      | cons a t => cases v <;> simp [oldReqFails, reqFails]
+
+/-- regression (former KF-C15-c witness): `required_parts={'path': True}` on `'http://h'` is now
+    False with `required_part`, as documented -/
+example :
     let lib : UrlLib := { parse := [("http://h".toList,
       .inr { six := { scheme := "http".toList, netloc := "h".toList }, hostname := .str "h".toList })] }
     let e : View := { value := .str "http://h".toList, lib := lib }
     let v := V.httpURL httpPartNames [("path".toList, .always)] []
-    documented v e = some false ∧ Excluded v e false = true ∧
-    (verdict v e).toOption.map (·.1) = some true := by decide
+    documented v e = some false ∧ Excluded v e false = false ∧
+    (verdict v e).toOption.map (fun r => (r.1, r.2.map (·.key))) = some (false, some "required_part") := by
+  decide
 
-/-- **KF-C15-d, witness**: `required_parts={'scheme': ()}` on `'ftp://h/'` — "the value of the part
-    must be present in this collection", the collection is empty; the validator says True -/
-theorem C15_required_empty_collection_ignored :
+/-- regression (former KF-C15-d witness): `required_parts={'scheme': ()}` on `'ftp://h/'` -/
+example :
     let lib : UrlLib := { parse := [("ftp://h/".toList,
       .inr { six := { scheme := "ftp".toList, netloc := "h".toList, path := "/".toList },
              hostname := .str "h".toList })] }
     let e : View := { value := .str "ftp://h/".toList, lib := lib }
     let v := V.httpURL httpPartNames [("scheme".toList, .oneOf [])] []
-    documented v e = some false ∧ Excluded v e false = true ∧
-    (verdict v e).toOption.map (·.1) = some true := by decide
-
-/-- the full statement restricted to elements WITH a value is false as well (KF-C15-c) -/
-theorem C15_HttpFull_fails_with_value :
-    ¬ (∀ ap req forb (e : View) (d : Bool), e.value ≠ .none →
-        documented (.httpURL ap req forb) e = some d → Decides (.httpURL ap req forb) e d) := by
-  intro h
-  obtain ⟨note, hv, _⟩ := h _ _ _ _ false (by decide) C15_required_true_never_fails.1
-  have := C15_required_true_never_fails.2.2
-  rw [hv] at this
-  simp [Except.toOption] at this
+    documented v e = some false ∧ Excluded v e false = false ∧
+    (verdict v e).toOption.map (fun r => (r.1, r.2.map (·.key))) = some (false, some "required_part") := by
+  decide
 
 /-! ### every documented part name's rule is honoured -/
 
@@ -587,15 +538,12 @@ def C15_HttpRuleHonoured_Full : Prop :=
     (requiredHolds (req.lookup k) v = false ∨ forbiddenHolds (forb.lookup k) v = false) →
     ∃ note, verdict (.httpURL httpPartNames req forb) e = .ok (false, note)
 
-/-- for any `all_parts` within the vocabulary: a rule on a name that is in `all_parts`, outside the
-    classes of KF-C15-c / -d for that part -/
+/-- for any `all_parts` within the vocabulary: a rule on a name that is in `all_parts` -/
 theorem http_rule_honoured_partial (ap : List Str) (req forb : List (Str × PartRule)) (e : View)
     (url : Str) (p : Parsed) (k : Str) (v : PartVal)
     (hv : e.value = .str url) (hp : e.lib.urlparse url = .ok p)
     (hvoc : ∀ k ∈ ap, k ∈ httpVocabulary) (hk : k ∈ ap)
     (hl : (partTable p).lookup k = some v)
-    (hc : requiredTrueOnEmpty (req.lookup k) v = false)
-    (hd : requiredEmptyCollection (req.lookup k) v = false)
     (hr : requiredHolds (req.lookup k) v = false ∨ forbiddenHolds (forb.lookup k) v = false) :
     ∃ note, verdict (.httpURL ap req forb) e = .ok (false, note) := by
   rw [httpURL_key ap req forb e url p hv hp hvoc]
@@ -604,12 +552,8 @@ theorem http_rule_honoured_partial (ap : List Str) (req forb : List (Str × Part
     rw [hl]
     cases v with
     | raises => rfl
-    | none =>
-      rw [requiredHolds_eq_code _ _ (by simp) hc hd] at hr
-      rcases hr with hr | hr <;> simp [hr]
-    | str s =>
-      rw [requiredHolds_eq_code _ _ (by simp) hc hd] at hr
-      rcases hr with hr | hr <;> simp [hr]
+    | none => rcases hr with hr | hr <;> simp [hr]
+    | str s => rcases hr with hr | hr <;> simp [hr]
   cases hf : ap.findSome? (partKey req forb (partTable p)) with
   | some key => exact ⟨_, rfl⟩
   | none =>
@@ -626,31 +570,14 @@ theorem default_all_parts_is_vocabulary :
     (httpPartNames.all (fun k => httpVocabulary.contains k) &&
      httpVocabulary.all (fun k => httpPartNames.contains k)) = true := by decide
 
-/-- **every documented part name's rule is honoured** with the default `all_parts` (KF-C15-b is
-    repaired) — outside the classes of KF-C15-c / -d for that part -/
-theorem http_rule_honoured_default_partial
-    (req forb : List (Str × PartRule)) (e : View) (url : Str) (p : Parsed) (k : Str) (v : PartVal)
-    (hv : e.value = .str url) (hp : e.lib.urlparse url = .ok p) (hk : k ∈ httpVocabulary)
-    (hl : (partTable p).lookup k = some v)
-    (hc : requiredTrueOnEmpty (req.lookup k) v = false)
-    (hd : requiredEmptyCollection (req.lookup k) v = false)
-    (hr : requiredHolds (req.lookup k) v = false ∨ forbiddenHolds (forb.lookup k) v = false) :
-    ∃ note, verdict (.httpURL httpPartNames req forb) e = .ok (false, note) := by
+/-- **every documented part name's rule is honoured** with the default `all_parts`, under the
+    DOCSTRING's reading of the rules and with no side condition (true again: KF-C15-b and KF-C15-c /
+    -d are repaired) -/
+theorem http_rule_honoured : C15_HttpRuleHonoured_Full := by
+  intro req forb e url p k v hv hp hk hl hr
   have h := default_all_parts_is_vocabulary
   simp only [Bool.and_eq_true, List.all_eq_true, List.contains_eq_mem, decide_eq_true_eq] at h
-  exact http_rule_honoured_partial httpPartNames req forb e url p k v hv hp h.1 (h.2 k hk) hl hc hd hr
-
-/-- the full statement is false of the code (KF-C15-c: `required_parts={'path': True}` on
-    `'http://h'` is not honoured) -/
-theorem C15_HttpRuleHonoured_fails : ¬ C15_HttpRuleHonoured_Full := by
-  intro h
-  let p : Parsed := { six := { scheme := "http".toList, netloc := "h".toList }, hostname := .str "h".toList }
-  let e : View := { value := .str "http://h".toList, lib := { parse := [("http://h".toList, .inr p)] } }
-  obtain ⟨note, hv⟩ := h [("path".toList, .always)] [] e "http://h".toList p "path".toList (.str [])
-    rfl (by decide) (by decide) (by decide) (Or.inl (by decide))
-  have := C15_required_true_never_fails.2.2
-  rw [show verdict (.httpURL httpPartNames [("path".toList, .always)] []) e = _ from hv] at this
-  simp [Except.toOption] at this
+  exact http_rule_honoured_partial httpPartNames req forb e url p k v hv hp h.1 (h.2 k hk) hl hr
 
 /-- non-vacuity / the former KF-C15-b witness: now False with `required_part` -/
 example :
